@@ -24,7 +24,8 @@ func (e *Engine) binop(st *State, th *Thread, op token.Token, xt, yt types.Type,
 	}
 	// strings
 	if xs, ok := x.(StrV); ok {
-		ys := y.(StrV)
+		xs = e.sres(st, xs)
+		ys := e.sres(st, y.(StrV))
 		switch op {
 		case token.ADD:
 			return e.concat(xs, ys)
@@ -200,7 +201,8 @@ func (e *Engine) equal(st *State, t types.Type, x, y Value) *Term {
 	case *Term:
 		return tb.Eq(a, y.(*Term))
 	case StrV:
-		b := y.(StrV)
+		a = e.sres(st, a)
+		b := e.sres(st, y.(StrV))
 		if s1, ok := a.constString(); ok {
 			if s2, ok := b.constString(); ok {
 				return tb.Bool(s1 == s2)
@@ -315,6 +317,7 @@ func (e *Engine) convert(st *State, th *Thread, from, to types.Type, v Value) Va
 		if isString(to) {
 			return x
 		}
+		x = e.sres(st, x)
 		if sl, ok := tu.(*types.Slice); ok && isByteType(sl.Elem()) {
 			// []byte(s): fresh object
 			arr := tb.ArrCopy(tb.ArrZero(), tb.Int64(0), x.Arr, x.Off, x.Len)
